@@ -176,9 +176,9 @@ class Gibbs:
         """ Get initial points for each parameter """
         initial_points = {}
         for par_name in self.par_names:
-            if hasattr(self, 'samples'):
+            if hasattr(self, 'samples') and self._Ns > 0:
                 initial_points[par_name] = self.samples[par_name][:, -1]
-            elif hasattr(self, 'samples_warmup'):
+            elif hasattr(self, 'samples_warmup') and self._Nb > 0:
                 initial_points[par_name] = self.samples_warmup[par_name][:, -1]
             elif hasattr(self.target.get_density(par_name), 'init_point'):
                 initial_points[par_name] = self.target.get_density(par_name).init_point
